@@ -925,3 +925,53 @@ def check_dde_run(model, solver, T=2.0, dt=1e-3, dts=0.05, precision="float64"):
             fails.append(dict(clause=f"run of a delayed model converges to the method-of-steps solution ({solver})", var=path,
                               t=float(times[bad]), observed=float(got[bad]), expected=float(want[bad])))
     return fails
+
+
+def rename_var(tree, old, new):
+    if tree[0] == "var":
+        return ["var", new] if tree[1] == old else tree
+    if tree[0] == "num":
+        return tree
+    if tree[0] == "pow":
+        return ["pow", rename_var(tree[1], old, new), tree[2]]
+    if tree[0] == "call":
+        return ["call", tree[1]] + [rename_var(a, old, new) for a in tree[2:]]
+    if tree[0] == "past":
+        return tree
+    return [tree[0]] + [rename_var(a, old, new) for a in tree[1:]]
+
+
+def check_expr_eval(tree, values, style=0):
+    """C05-B1: direct evaluation of the parsed expression (ExpressionParser + ComputeGraph.eval_node) == tree evaluator."""
+    from pyrates.backend.parser import ExpressionParser
+    from pyrates.backend.computegraph import ComputeGraph
+    tree = rename_var(tree, "x", "xq")          # a bare expression is assigned to the default left-hand side `x`
+    vals = {("xq" if k == "x" else k): v for k, v in values.items()}
+    expr = mdl.to_str(tree, style)
+    want = mdl.ev(tree, vals)
+    try:
+        cg = ComputeGraph(backend="default")
+        args = {k: {"vtype": "constant", "value": np.float64(v), "dtype": "float64", "shape": ()} for k, v in vals.items()}
+        ExpressionParser(expr_str=expr, args=args, cg=cg).parse_expr()
+        got = cg.eval_node(cg.var_updates["non-DEs"]["x"])
+    except Exception as exn:
+        return [dict(clause="expression parses and evaluates (direct evaluation path)", expr=expr, observed=f"{type(exn).__name__}: {exn}")]
+    if not close(np.asarray(got, dtype=float).squeeze(), want, 1e-9, 1e-11):
+        return [dict(clause="direct evaluation of the parsed expression equals the arithmetic value", expr=expr,
+                     observed=float(np.asarray(got).squeeze()), expected=float(want))]
+    # ... for ALL argument values: change the values in place and evaluate the same parsed expression again
+    try:
+        vals2 = {k: round(v * 0.5 + 0.37, 4) for k, v in vals.items()}
+        for k, v in vals2.items():
+            try:
+                cg.get_var(k).set_value(np.asarray(np.float64(v)))
+            except KeyError:
+                vals2[k] = vals[k]            # variable does not occur in the expression
+        want2 = mdl.ev(tree, vals2)
+        got2 = cg.eval_node(cg.var_updates["non-DEs"]["x"])
+        if not close(np.asarray(got2, dtype=float).squeeze(), want2, 1e-9, 1e-11):
+            return [dict(clause="direct evaluation follows the current argument values (second evaluation after set_value)", expr=expr,
+                         observed=float(np.asarray(got2).squeeze()), expected=float(want2))]
+    except Exception as exn:
+        return [dict(clause="second direct evaluation after changing argument values succeeds", expr=expr, observed=f"{type(exn).__name__}: {exn}")]
+    return []
